@@ -222,7 +222,13 @@ func (c *FnCtx) evalIdent(env *SpecEnv, name string) (Val, error) {
 				return c.constToVal(x)
 			case *types.Var:
 				a := &Addr{Space: "G", Key: env.pkg.Path() + "." + name, T: x.Type()}
-				return c.loadAt(env.heap, a), nil
+				gv := c.loadAt(env.heap, a)
+				if sp := c.fn.Prog.Package(env.pkg); sp != nil && env.st != nil {
+					if g, ok := sp.Members[name].(*ssa.Global); ok {
+						c.sentinelFacts(env.st, g, gv)
+					}
+				}
+				return gv, nil
 			}
 		}
 	}
@@ -478,8 +484,12 @@ func (c *FnCtx) selectField(env *SpecEnv, x Val, name string, e *Expr) (Val, err
 	}
 	a := &Addr{Space: base.Space, Key: base.Key, Idx: base.Idx, Path: joinPath(base.Path, path), T: ft}
 	v := c.loadAt(env.heap, a)
-	if kindOf(ft) == KStruct {
-		// keep an address so nested selections on struct-typed fields work for ghost paths
+	if !ghost && kindOf(ft) == KInt && env.st != nil && !strings.Contains(v.S, "|q.") {
+		// type invariant of the location: a machine-integer field holds a value of its type
+		// (closed terms only; bound variables may denote objects of other types)
+		if f := rangeFact(ft, v.S); f != "" {
+			env.st.assume(f)
+		}
 	}
 	return v, nil
 }
